@@ -105,24 +105,63 @@ Print Assumptions C02_truncated_stream.
 Print Assumptions C02_holds.
 
 (** ** tie to the source text (see Props/C01.v): the re-translated bodies of the
-    five slice parsers, with Rust's panicking [+], slicing and indexing kept,
-    equal the model's parsers on every byte string -- so the totality theorems
-    above are statements about the text of src/header.rs and src/message.rs. *)
+    five slice parsers (Gen/FrameGen.v) and of the stream readers read_message,
+    read_message_into, zeroed_payload and grow_zeroed of src/io.rs
+    (Gen/ReadersGen.v), with Rust's panicking [+], slicing, indexing and
+    [copy_from_slice] kept, equal the model's parsers / readers on every byte
+    string, every stream and every allocator -- so the totality theorems above are
+    statements about the text of src/header.rs, src/message.rs and src/io.rs.
+    Oracles of the readers: [read_exact(r, ..)] is ONE [read_exact] of the model
+    over the remaining stream; [try_reserve_exact] asks the model's [can_alloc] for
+    the new total length ([n < two64]: the argument is a u64; spare capacity of a
+    reused buffer is not modelled, so where the code would skip the allocator the
+    rendering, like the model, still consults it). *)
 From RepeV Require Import Base.GenFramePrelude Gen.FrameGen Proofs.FrameGenAgree.
+From RepeV Require Import Base.GenVecPrelude Gen.ReadersGen Proofs.ReadersGenAgree.
 
 Theorem C02_source_translation :
   agrees1 gen_decode decode /\
   agrees1 gen_from_slice from_slice /\
   agrees1 gen_from_slice_exact from_slice_exact /\
   agrees1 gen_view_from_slice view_from_slice /\
-  agrees1 gen_view_from_slice_exact view_from_slice_exact.
-Proof. exact c02_source_translation. Qed.
+  agrees1 gen_view_from_slice_exact view_from_slice_exact /\
+  match gen_grow_zeroed with
+  | Some f => forall can_alloc buf n, lenN buf < two64 -> n < two64 ->
+      f can_alloc buf n = (do _ <- alloc can_alloc (N.max (lenN buf) n); Ok (vec_resize buf n 0))
+  | None => True
+  end /\
+  match gen_zeroed_payload with
+  | Some f => forall can_alloc n, n < two64 ->
+      f can_alloc n = (do _ <- alloc can_alloc n; Ok (repeat 0 (N.to_nat n)))
+  | None => True
+  end /\
+  agrees2 gen_read_message read_message /\
+  match gen_read_message_into with
+  | Some f => forall can_alloc buf src, f can_alloc buf src = read_message_into can_alloc src
+  | None => True
+  end.
+Proof. exact c02_source_translation_readers. Qed.
 
 Check C02_source_translation :
   agrees1 gen_decode decode /\
   agrees1 gen_from_slice from_slice /\
   agrees1 gen_from_slice_exact from_slice_exact /\
   agrees1 gen_view_from_slice view_from_slice /\
-  agrees1 gen_view_from_slice_exact view_from_slice_exact.
+  agrees1 gen_view_from_slice_exact view_from_slice_exact /\
+  match gen_grow_zeroed with
+  | Some f => forall can_alloc buf n, lenN buf < two64 -> n < two64 ->
+      f can_alloc buf n = (do _ <- alloc can_alloc (N.max (lenN buf) n); Ok (vec_resize buf n 0))
+  | None => True
+  end /\
+  match gen_zeroed_payload with
+  | Some f => forall can_alloc n, n < two64 ->
+      f can_alloc n = (do _ <- alloc can_alloc n; Ok (repeat 0 (N.to_nat n)))
+  | None => True
+  end /\
+  agrees2 gen_read_message read_message /\
+  match gen_read_message_into with
+  | Some f => forall can_alloc buf src, f can_alloc buf src = read_message_into can_alloc src
+  | None => True
+  end.
 
 Print Assumptions C02_source_translation.
